@@ -19,8 +19,7 @@ AnsGetS(c) == Seam /\ AnsGet(c)
 SaEvS(k) == Seam /\ SaEv(k)
 DelTimeoutS == Settled /\ DelTimeout
 SettledNext == \/ DelTimeoutS
-               \/ ~Locked /\ (TClose \/ Done)
-               \/ ~Locked /\ ~Urgent /\ (ConnInit \/ Reader \/ ReaderFail \/ ReaderEOF)
+               \/ SDKNext
                \/ ConnectS \/ CancelConnectS \/ NotifyS \/ CloseS
                \/ \E k \in 1..NC : CallS(k)
                \/ \E t \in PostTags, c \in PostClasses, h \in {"", "A", "B"} : AnsPostS(t, c, h)
@@ -32,9 +31,60 @@ SettledSpec == Init /\ [][SettledNext]_vars
 
 \* the cover graph forgets the ghosts, the header snapshots (functions of sid / pv at the time of sending) and the
 \* result classes of what has been retired (they do not influence what can happen next)
-CoverView == <<SA, OAuth, DelCls, conn, cph, cancelled, sid, pv, fail, [t \in Tags |-> <<rq[t].st, rq[t].att>>], reg,
+CoverView == <<P, conn, cph, cancelled, sid, pv, fail, [t \in Tags |-> <<rq[t].st, rq[t].att>>], reg,
                [t \in CallTags |-> IF t = "init" THEN ret[t] ELSE IF ret[t] # "" THEN "x" ELSE ""], stream, inbox, nt \in {"new", "writing"}, nt = "new", sa, ping, nsaev,
                closing, rerr, werr, reading, nnotif, incoming, tc, jdone, closeIss, closeRet, nauth>>
+
+-----------------------------------------------------------------------------
+(* profiles: one TLC run explores all profiles of a set (several initial states) *)
+AllPost == {"json", "badjson", "sse", "202", "badct", "rpcerr", "rpc404", "404", "http", "401", "5xx", "neterr"}
+AllGet  == {"sse", "405", "404", "4xx", "500", "200plain", "503sse", "neterr"}
+Prof(pname, pnc, psa, poauth, pdel, ppost, pget, pinith, phset, pnotify, psaev, pauth, pclose, pcancel) ==
+  [name |-> pname, nc |-> pnc, sa |-> psa, oauth |-> poauth, del |-> pdel, post |-> ppost, get |-> pget, inith |-> pinith,
+   hset |-> phset, notify |-> pnotify, saev |-> psaev, auth |-> pauth, close |-> pclose, cancel |-> pcancel]
+
+\* a: terminal and per-message answers, response streams, two calls      b: the standalone stream
+\* c: session ids (none, at initialize, late, changing)                   d: OAuth handler
+\* e: Connect's context cancelled, failing DELETE, second Close           f: the DELETE is never answered (only with
+\* g: the remaining answer classes                                           non-terminal answers: D7)
+PA == Prof("a", 2, FALSE, FALSE, "ok", {"json", "sse", "rpcerr", "404", "http", "badct"}, {"405"}, {"A"}, {""}, 1, 0, 0, 1, FALSE)
+PB == Prof("b", 1, TRUE, FALSE, "ok", {"json", "sse", "5xx", "404"}, AllGet, {"A"}, {""}, 0, 2, 0, 2, FALSE)
+PC == Prof("c", 2, FALSE, FALSE, "404", {"json", "sse", "202"}, {"405"}, {"", "A"}, {"", "A", "B"}, 0, 0, 0, 1, FALSE)
+PD == Prof("d", 1, FALSE, TRUE, "405", {"json", "401", "404", "5xx"}, {"405"}, {"A"}, {""}, 0, 0, 2, 1, FALSE)
+PE == Prof("e", 1, TRUE, FALSE, "neterr", {"json", "http", "neterr"}, {"sse", "405"}, {"A"}, {""}, 0, 0, 0, 2, TRUE)
+PF == Prof("f", 1, TRUE, FALSE, "timeout", {"json", "sse", "5xx"}, {"sse", "405"}, {"A"}, {""}, 0, 0, 0, 2, FALSE)
+PG == Prof("g", 1, FALSE, FALSE, "ok", {"json", "badjson", "rpc404", "5xx", "neterr", "202"}, {"405"}, {"", "A"}, {""}, 1, 0, 0, 1, FALSE)
+ProfCover == {PA, PB, PC, PD, PE, PF, PG}
+\* exhaustive (every interleaving), quick: the same profiles, d with two calls, e also without the standalone stream
+PD2 == [PD EXCEPT !.name = "d2", !.nc = 2]
+PE2 == [PE EXCEPT !.name = "e2", !.sa = FALSE, !.del = "ok"]
+ProfMC == {PA, PB, PC, PD2, PE, PE2, PF, PG}
+\* liveness under fairness
+PLa == Prof("la", 1, FALSE, FALSE, "ok", {"json", "sse", "rpcerr", "404", "http"}, {"405"}, {"A"}, {""}, 1, 0, 0, 1, FALSE)
+PLb == Prof("lb", 1, TRUE, TRUE, "timeout", {"json", "401", "404"}, {"sse", "405"}, {"A"}, {""}, 0, 0, 1, 1, TRUE)
+ProfLive == {PLa, PLb}
+\* the idealised design / the leads
+PI == Prof("i", 2, TRUE, FALSE, "ok", {"json", "sse", "404", "http"}, {"sse", "405"}, {"A"}, {""}, 0, 0, 0, 1, TRUE)
+ProfIdeal == {PI}
+ProfLeadStream == {Prof("ls", 2, FALSE, FALSE, "ok", {"json", "sse", "404"}, {"405"}, {"A"}, {""}, 0, 0, 0, 1, FALSE)}
+ProfLeadCancel == {Prof("lc", 1, TRUE, FALSE, "ok", {"json"}, {"sse", "405"}, {"A"}, {""}, 0, 0, 0, 1, TRUE)}
+\* simulation (seam level): larger
+PSa == Prof("sa", 3, TRUE, FALSE, "ok", AllPost \ {"401"}, AllGet, {"", "A"}, {"", "A", "B"}, 1, 3, 0, 2, FALSE)
+PSb == Prof("sb", 3, FALSE, TRUE, "405", AllPost, {"405"}, {"", "A"}, {"", "A"}, 1, 0, 3, 2, FALSE)
+PSc == Prof("sc", 2, TRUE, FALSE, "neterr", {"json", "sse", "202", "rpcerr", "404", "http", "5xx", "neterr"}, AllGet, {"A"}, {"", "A", "B"}, 1, 2, 0, 2, TRUE)
+PSd == Prof("sd", 2, TRUE, TRUE, "404", AllPost, {"sse", "405", "404"}, {"A"}, {"", "A"}, 1, 2, 2, 2, FALSE)
+ProfSim == {PSa, PSb, PSc, PSd}
+\* thorough
+PT1 == Prof("t1", 3, FALSE, FALSE, "ok", {"json", "sse", "rpcerr", "404", "http", "badct"}, {"405"}, {"A"}, {""}, 1, 0, 0, 2, FALSE)
+PT2 == Prof("t2", 2, TRUE, FALSE, "ok", {"json", "sse", "404", "http"}, {"sse", "405", "503sse", "neterr"}, {"A"}, {""}, 0, 2, 0, 1, FALSE)
+PT3 == Prof("t3", 2, TRUE, TRUE, "405", {"json", "sse", "401", "404", "5xx", "202"}, {"sse", "405"}, {"A"}, {"", "A"}, 0, 0, 2, 2, TRUE)
+PT4 == [PT3 EXCEPT !.name = "t4", !.sa = FALSE, !.del = "neterr"]
+PT5 == Prof("t5", 2, FALSE, FALSE, "404", {"json", "sse", "202", "404"}, {"405"}, {"", "A"}, {"", "A", "B"}, 1, 0, 0, 2, FALSE)
+ProfMCT == {PT1, PT2, PT3, PT4, PT5}
+PLt1 == Prof("lt1", 2, TRUE, FALSE, "timeout", {"json", "sse", "404", "http"}, {"sse", "405"}, {"A"}, {""}, 0, 0, 0, 1, FALSE)
+PLt2 == [PLt1 EXCEPT !.name = "lt2", !.sa = FALSE, !.del = "ok"]
+PLt3 == Prof("lt3", 1, TRUE, TRUE, "ok", {"json", "401", "404", "badct"}, {"sse", "405", "503sse"}, {"A"}, {"", "B"}, 1, 1, 1, 2, TRUE)
+ProfLiveT == {PLt1, PLt2, PLt3}
 
 \* reachability witnesses (each must be violated)
 NeverGone == rerr # "gone"
@@ -46,4 +96,7 @@ NeverConnectDelete == ~(ndel = 1 /\ conn = "err")
 NeverPingAnswered == ping # "done"
 NeverRetiredWhileWriting == ~(\E t \in AppCalls : ret[t] # "" /\ rq[t].st = "open")
 NeverSecondClose == closeRet < 2
+NeverDeleteTimeout == ~(tc = "closed" /\ DelCls = "timeout" /\ ndel = 1)
+NeverCancelledWhileGet == ~(cancelled /\ cph = "sa")
+NeverMismatch == ~(werr /\ fail = "" /\ sid = "A" /\ "B" \in issued)
 =============================================================================
